@@ -25,11 +25,21 @@ CHECKS = {
          "Rule files are generated from the documented grammar together with their AST, rendered under independently switchable whitespace features, comment placements and hostile string contents, parsed by parse_rules, parse_with_modules and (rule by rule) parse_rule, and compared piece by piece (count, order, name, salience, each attribute, flattened condition tree with every leaf, action list). Failing files are shrunk over rules, layout features, comments, attributes, condition, actions and string contents; the signature is the set of hostile features that survived (or, on plain grammar, the clause and remaining structure). Held = every explored file parsed equal to what was written, apart from the listed known findings.",
          "The expected AST encodings (bare path = Value::Expression, arithmetic leaf = one Test leaf with the same tokens, flattened And/Or) are the harness's reading of the parser's contract; Rule.description is not compared. A failing file that still contains a feature listed as a known finding is attributed to that finding (a tainted file proves nothing new); files without such features are always reported in full.",
          "DESIGN.md §5 C04"),
+ "C12": ("exploration",
+         "online step monitors (before/after contents, no carried model) + reference folds over exhaustive short and seeded random event sequences; wall clock injected through an LD_PRELOAD shim for the clock-driven node",
+         "Drives TimeWindow (add_event, record), WindowManager and WindowedStream in tumbling mode, and StreamAlphaNode under a virtual clock with every event sequence up to a stated length over a small timestamp alphabet around the window boundaries (x durations 1-10 ms x caps 1, 2, 100) and seeded random sequences up to length 12 (in order, reversed, shuffled, late, duplicate, boundary instants; numeric, string, bool, missing payloads). After every call it checks acceptance / aligned placement / no stale retained event / no in-span event lost except oldest-first cap drops on the contents observed before and after, and count, sum, average, min, max through every aggregation API against a fold over exactly the window's events(). Held = no step of any explored sequence broke a clause, apart from the listed known findings.",
+         "Exploration, not proof: exhaustive only to length 4-8 over 6-8 timestamps. Trusts metadata.sequence as identity. Cap drops accepted under arrival- or timestamp-order readings and either order of cap and eviction. Future timestamps within d of now are not judged for the sliding node. Session windows, WindowedStream sliding mode, NaN payloads and sub-ms durations are outside the statement and not driven. Needs the clock shim, else the node part is INCONCLUSIVE.",
+         "DESIGN.md §5 C12"),
  "C13": ("exploration",
          "online step monitor (invariant + conservation) over exhaustive and random event sequences",
          "Runs WatermarkedStream on every timestamp sequence of a small dense domain (exhaustively up to a stated length, randomly beyond) under every watermark/late-data configuration and checks, after every add_event, monotonicity, the watermark value, the late/on-time decision, routing by unique event id and the counter identities. Held = no step of any explored sequence broke a clause.",
          "Trusts the harness's shadow bookkeeping (ids, max timestamp) and that lateness <= bound is 'allowed'. Says nothing about Periodic/Custom strategies (wall-clock driven, not in the statement).",
          "DESIGN.md §5 C13"),
+ "C18": ("exploration",
+         "online step monitor with an independent reference model (strict/liberal bounds) over exhaustive and random operation sequences on ModuleManager; full public snapshot after every operation",
+         "Runs the real ModuleManager on every operation sequence of a stated length over a reduced 36-operation alphabet (create/delete/export/add-rule/imports incl. self-imports, other types and patterns, MAIN, re-exports) from three start prefixes, and on random sequences of up to 7 operations over the full alphabet, with deletions and re-creations of imported modules. After every operation it checks that declarations and import_graph among existing modules are acyclic, that a refused import changed nothing, that every visibility query on an existing module answers, and that is_rule_visible / get_visible_rules lie between a strict and a liberal reading of the statement (identical when no re-export or outlived declaration is involved) and agree with each other. Held = no step of any explored sequence broke a clause other than the pinned known findings.",
+         "The model follows the Ok/Err of create/delete/add operations instead of prescribing them; acceptance of acyclic imports and template-visibility values are not demanded; Module::add_import and the GRL parser front-end are not driven; a defect whose only symptom carries one of the open signatures would be masked.",
+         "DESIGN.md §5 C18"),
  "C20": ("fault_enumeration",
          "reference-model history monitor under an LD_PRELOAD virtual clock (exhaustive small scope + seeded random, also real clock) + strace fault enumeration of a real checkpoint() call (SIGKILL before every syscall, ENOSPC/EIO on every syscall, every byte-prefix / zero-filled tail of the state file) with a fresh-store restore oracle",
          "Runs the real StateStore (file backend) on every op sequence of a stated 21-letter alphabet up to length 5/6 and on random histories of up to 10 ops over 3 keys, comparing every public view with an independent model after each op and the store with the recorded snapshot after each restore; then kills a child on entry to each syscall its checkpoint() issues (observed with strace), fails each of those syscalls with ENOSPC/EIO and cuts the state file at every byte, each time requiring that fresh stores restore all earlier checkpoints exactly and the interrupted one completely or not at all. Held = none of the executions listed in the evidence broke a clause.",
